@@ -188,7 +188,7 @@ def gen_config(rng, n_chunks_max, chain_only=False):
 def all_types(spec):
     out = [s["name"] for s in spec["sources"]]
     for p in spec["plugins"]:
-        out += [p["name"] + "a", p["name"] + "b"] if p["type"] == "multi" else [p["name"]]
+        out += [p["name"] + "a", p["name"] + "b"] if p["type"] in ("multi", "mwindow") else [p["name"]]
     return out
 
 
